@@ -1,5 +1,6 @@
 #![allow(dead_code, clippy::too_many_arguments, clippy::type_complexity)]
 mod alloc;
+mod channel;
 mod ctx;
 mod fdtview;
 mod engine;
